@@ -1215,6 +1215,10 @@ pub fn repeat_storms(ctx: &Ctx, want: &str) -> Report {
                 e.msg(0x80 | ch, &[*k, 0], false);
             }
         }
+        // (the edge polls come first: the number of messages between two polls is exactly the storm's)
+        e.ops.push(Op::PollRising);
+        e.ops.push(Op::PollFalling);
+        e.ops.push(Op::PollRising);
         // two keys pressed after the storm, the newer one released: the fallback is the other new key, not the key held
         // since before the storm
         let (ka, kb) = (drone + 9, drone + 4);
@@ -1222,9 +1226,6 @@ pub fn repeat_storms(ctx: &Ctx, want: &str) -> Report {
         e.msg(0x90 | ch, &[kb, 71], true);
         e.msg(0x80 | ch, &[kb, 0], false);
         e.msg(0x80 | ch, &[ka, 0], false);
-        e.ops.push(Op::PollRising);
-        e.ops.push(Op::PollFalling);
-        e.ops.push(Op::PollRising);
         e.msg(0x90 | ch, &[key, 64], false);
         e.ops.push(Op::PollRising);
         e.msg(0x80 | ch, &[key, 0], false);
